@@ -117,8 +117,14 @@ def run_random(spec, rec):
             srng = core.rng_for(seed, PROP, 'sched', idx, sidx)
             strat = strategy_for(srng, est, sidx)
             mon = H.Monitor()
-            res = H.run_controlled(case, strat, mon=mon)
-            est = max(10, res.steps)
+            fine = None
+            if sidx == nsched - 1:
+                # one schedule per case also switches between source lines
+                fine = (core.rng_for(seed, PROP, 'fine', idx), 0.08)
+                rec.count('fine_grained_runs')
+            res = H.run_controlled(case, strat, mon=mon, fine=fine)
+            if fine is None:
+                est = max(10, res.steps)
             extra = {'engine': 'controlled', 'choices': res.choices,
                      'hashseed': spec.get('hashseed', 0)}
             if not account(res, rec, case, extra):
